@@ -44,7 +44,8 @@ CHECKS["C13"] = dict(
     level_note=_HIST_NOTE + " Histories violating the documented caller duty (using a parameter set added after the current output's header before rotating) are pruned by the model, not reported.",
     stages=[dict(harness="hist", variant="plain", args=["--mode", "rotate"]),
             dict(harness="hist", variant="plain", args=["--mode", "rotate-gz"], prefix="gz_"),
-            dict(harness="hist", variant="plain", args=["--mode", "rotate-xz"], prefix="xz_")],
+            dict(harness="hist", variant="plain", args=["--mode", "rotate-xz"], prefix="xz_"),
+            dict(harness="val", variant="asan", args=["--mode", "align"], prefix="align_")],
     rule="stateless DFS over an 11-operation alphabet x 2 configurations x {named file, descriptor} x {plain, gzip, xz}; every history of length 0..D; non-trivial = at least one operation",
     bound_quick="plain: length <= 4; gzip: <= 3; xz: <= 2", bound_thorough="plain: length <= 5; gzip: <= 4; xz: <= 3",
     assumptions=["name-created exporters are rotated to names, descriptor-created ones to descriptors (DESIGN 8.2)", "files live on tmpfs (/dev/shm)"],
@@ -123,7 +124,7 @@ CHECKS["C03"] = dict(
     level_note="Trusted: sanitizer runtimes as oracle (memory errors, UB, allocations > 512 MiB, stack overflow), watchdog 20 s per case. Two or more coordinated mutations and reads of uninitialised bytes inside live std::string storage are outside what this check observes. Command-line tools are covered by the tools stage on the distinct outcome classes.",
     stages=[dict(harness="rewrite", variant="asan", args=["--mode", "mutate"])],
     rule="enumerated single mutations per seed node/byte; an input is non-trivial when the reader got past the file header (it exercises block/record decoding); distinct by construction (each mutation generated once)",
-    bound_quick="seeds small (594 B: all bytes x 255) and rich (every 3rd byte x 255); bombs up to depth 2*10^5", bound_thorough="adds seed mid; bombs up to 10^6; raw length-4 strings",
+    bound_quick="seeds small (594 B: every byte x 255 values) and rich (every 2nd byte x 64 representative values); bombs up to depth 2*10^5; length fields near 2^64/2^63/2^32", bound_thorough="adds seed mid; bombs up to 10^6; raw length-4 strings",
     assumptions=["default 8 MiB stack"],
 )
 
